@@ -20,7 +20,30 @@ RULE = ("half grammar-generated histories (10-40 ops: inbound lines of every han
 ASSUMPTIONS = ["which lines are accepted is decided by the library's decoder+validator (their conformance is C02/C03)",
                "is_version (awesomeversion) verdicts are taken from the library (safe_is_version) in the reference meaning",
                "float(), awesomeversion are oracles of the model fed with the library's real verdicts"]
-THEOREMS_DOC = {}
+THEOREMS_DOC = {
+    'C04_registry_resolution': 'per version the generated registry resolves every valid internal/stream sub-type to a handler of the hand-written kind; MAX_NODE_ID=254',
+    'C04_logic_tree_meaning': 'after one dispatcher call the whole persisted tree equals meaning_line of the line (all configs, oracles, states with Inv)',
+    'C04_tree_async': 'asyncio flavour: tree after any list of lines = fold of meaning_line from the empty tree',
+    'C04_tree_async_ops': 'asyncio flavour with controller calls and idle pumps anywhere',
+    'C04_tree_is_fold_of_meaning': 'both flavours, any placement of pumps/controller calls: fold over queued lines from current tree = fold over all received lines',
+    'C04_tree_threaded_drained': 'threaded flavour: once no line is queued the tree is the fold over all received lines',
+    'C04_controller_ops_frame': 'set_child_value/update_fw/set metric steps change neither tree nor dirty flag',
+    'C04_send_job_frame': 'pumping a queued send job changes neither tree nor dirty flag',
+    'C04_child_frame': 'closed equation for every child after any message',
+    'C04_value_is_last_reported': 'closed equation: a value changes only by a set for exactly that node/child/type on a known child and then holds the payload',
+    'C04_first_presentation_wins': 'a presented child keeps id/type/description through any later lines',
+    'C04_second_presentation_ignored': 'presentation of a known child changes nothing',
+    'C04_unknown_target_ignored': 'child presentation to unknown node / set for unknown node or child changes nothing',
+    'C04_nodes_only_by_presentation_or_id': 'a new node key comes from an accepted node presentation or id request only',
+    'C04_callback_exact': 'callback events of one call: [] or exactly [ECallback m tree_after] iff accepted and alerting and callback configured',
+    'C04_alerted_line_spec': 'alerted_line = Some m iff decodes to m, accepted, alerting',
+    'C04_callback_never_twice': 'at most one callback per call, none without a configured callback',
+    'C04_changed_alerts': 'tree changed => accepted, alerting, exactly one callback with that message and the tree after',
+    'C04_changed_implies_alerting': 'meaning changes the tree => alerting',
+    'C04_alerting_without_change': 'gateway ready, stream requests of known nodes, repeated identical value alert without tree change',
+    'C04_callbacks_history': 'callback log of a whole history = one event per alerting accepted line, in order, with the tree after it',
+    'C04_callback_raise_irrelevant': 'alert is total and touches only log and flag; no callback outcome exists in the model',
+    'C04_setters_fallback': 'closed forms of battery_of / heartbeat_of / safe_version with fallbacks 0 / 0 / 1.4'}
 SCOPE = ["tree", "CB"]
 MONITORS = ["c04"]
 
